@@ -592,6 +592,12 @@ class Flows:
             self.out_conn = self.next_conn
             self.next_conn += 1
             return self.out_conn
+        if r.random() < 0.2:
+            # the next hop closes the connection: the proxy's cached client connection is stale, the next request routed
+            # there must be written on a connection dialled anew
+            s.ev_close(self.out_conn)
+            self.out_conn = None
+            return None
         # the next hop sends a request of its own over the connection the proxy opened
         sentby = r.choice([b"10.2.2.2:5080", hop[0] + b":%d" % hop[1], b"10.2.2.2"])
         via = b"SIP/2.0/TCP " + sentby + b";branch=z9hG4bK-ob%d" % self.nid() + r.choice([b"", b";rport", b";rport=7;received=10.7.7.7", b";received=10.7.7.7"])
@@ -693,6 +699,17 @@ def dialog_history(rng, block, n_dialogs=None, n_backends=None, opts=None, flows
             bip, bport = r.choice(f.backends).split(b":")          # a backend closes the connection the proxy has to it
             s.ev_bclose(bip, int(bport))
             continue
+        if f.btcp and f.o.get("route_to_backend", True) and r.random() < 0.05:
+            # a request ROUTED (Route header) to a backend's address: when that backend has sent a request of its own on
+            # its connection, its address was learned there and the proxy's Via names that connection's transport
+            bip, bport = r.choice(f.backends).split(b":")
+            a, b = f.uri_pair()
+            ua = r.choice(f.uas)
+            data, _ = f.request(r.choice(METHODS), b"sip:x@elsewhere.example.net", ua, f.ft(a, b"rb%d" % f.nid(), False),
+                                f.ft(b"sip:u@nowhere.example.net", None, False), b"rtb-%d" % f.nid(),
+                                routes=[b"<sip:" + bip + b":" + bport + b";transport=tcp;lr>"])
+            s.ev_udp(f.li, ua, data)
+            continue
         k = r.random()
         if k < 0.15:
             f.to_service(method=r.choice([b"OPTIONS", b"MESSAGE", b"REGISTER", b"INVITE"]))       # unrelated, advances the rotation
@@ -769,14 +786,17 @@ def dialog_history(rng, block, n_dialogs=None, n_backends=None, opts=None, flows
     return f
 
 
-def tb_history(rng, block, n_dialogs=None):
+def tb_history(rng, block, n_dialogs=None, route_to_backend=True):
     """backends reached over TCP ("proxytb" cases): a warm-up lets the rotation open a connection to every backend, then a
     dialog history as above in which the backends answer on those connections, and now and then a backend closes its
     connection (the next request for it must be sent on a new one)"""
     r = rng
+    if r.random() < 0.25:
+        # the set of TCP backends changes (one entry is a host name): a removed member's connection is closed by the proxy
+        return membership_history(r, block, btcp=True)
     nb = r.randrange(1, 5)
     o = {"backends": nb, "names": b"svc.example.com", "tcp": False, "two_listeners": False, "routes": r.choice([0, 1]),
-         "tcphops": False, "btcp": True, "keep": False}
+         "tcphops": False, "btcp": True, "keep": False, "route_to_backend": route_to_backend}
     f = Flows(r, block, o)
     s = f.s
     for _ in range(r.randrange(0, 2 * nb + 1)):
@@ -785,7 +805,7 @@ def tb_history(rng, block, n_dialogs=None):
     return f
 
 
-def membership_history(rng, block):
+def membership_history(rng, block, btcp=False):
     """C19 / C05 / C04 at the level of the whole proxy: one backend of the listener is given by host NAME; its addresses
     come and go through the real resolver path (addressResolved -> notification goroutine -> hostIPChanged ->
     Add/RemoveBackend -> the proxy's backend index).  In between: unpinned requests (they go to registered backends
@@ -798,6 +818,9 @@ def membership_history(rng, block):
     o = {"backends": r.choice([0, 0, 1, 2]), "names": b"svc.example.com", "tcp": False, "two_listeners": False,
          "routes": 0, "tcphops": False, "dyn": True, "dyn_first": r.random() < 0.6,
          "backend_port": 5072 if other_port else 5070, "dynport": b"5070"}
+    if btcp:
+        # the members are reached over TCP: removing one closes the connection the proxy has to it
+        o.update({"btcp": True, "keep": False})
     f = Flows(r, block, o)
     s = f.s
     l = s.listens[f.li]
@@ -805,6 +828,8 @@ def membership_history(rng, block):
     pool = [s.ip(14 + i) + b":" + port for i in range(4)]
     for a in pool:
         s.udp_ep(a.split(b":")[0], int(port))
+        if btcp:
+            s.tcp_ln(a.split(b":")[0], int(port))
     static = list(f.backends)
     dynamic = []
     gone = []
